@@ -1,7 +1,7 @@
 /-
 Driver for C19.
 
-Agent frames (`Uniflow.Agent`, repaired matching):
+Agent frames (`Uniflow.Agent`, repaired matching, answers without an open frame skipped – `inboundR` / `outboundR`):
   inb  p sym in out pck      an inbound packet hook of (process p, symbol sym, in, out) ran   → ok
   outb p sym in out pck      an outbound packet hook ran                                       → ok
   exit p                     the agent's exit hook of process p ran                            → ok
@@ -93,11 +93,11 @@ def addCall (st : St) (p : String) (b : Nat) : St × String :=
 def step (st : St) : List String → St × String
   | ["inb", p, sym, i, o, pck] =>
     match p.toNat?, parseKey sym i o, pck.toNat? with
-    | some p, some k, some pck => (setFrames st p (Agent.inbound .fixed k pck (getFrames st p)), "ok")
+    | some p, some k, some pck => (setFrames st p (Agent.inboundR k pck (getFrames st p)), "ok")
     | _, _, _ => (st, "bad-op")
   | ["outb", p, sym, i, o, pck] =>
     match p.toNat?, parseKey sym i o, pck.toNat? with
-    | some p, some k, some pck => (setFrames st p (Agent.outbound .fixed k pck (getFrames st p)), "ok")
+    | some p, some k, some pck => (setFrames st p (Agent.outboundR k pck (getFrames st p)), "ok")
     | _, _, _ => (st, "bad-op")
   | ["exit", p] =>
     match p.toNat? with
